@@ -19,6 +19,77 @@ EXPLANATION = (
 TECHNIQUE = 'dataflow into dispatch_table, dominance by the remote flag, signature checks'
 
 
+def check_cache_key(ctx, cf, rule):
+    """the verdict cache is keyed by the class object itself: a key derived from it (id(t) - recycled once the class has been collected -, a name - two
+    classes may share it) answers a later, different class with the verdict of an earlier one"""
+    tparam = cf.params[1] if len(cf.params) > 1 else None
+    keys = []
+    for n in walk_local(cf.node):
+        if isinstance(n, ast.Subscript) and 'cache' in norm(n.value):
+            keys.append(n.slice)
+        if isinstance(n, ast.Compare) and len(n.ops) == 1 and isinstance(n.ops[0], (ast.In, ast.NotIn)) and 'cache' in norm(n.comparators[0]):
+            keys.append(n.left)
+        if isinstance(n, ast.Call) and last_attr(n) in ('get', 'pop', 'setdefault') and 'cache' in (receiver(n) or '') and n.args:
+            keys.append(n.args[0])
+    ctx.floor('uses of the verdict cache key', len(keys), 3)
+    def resolved(e, depth=0):
+        if isinstance(e, ast.Name) and e.id != tparam and depth < 3:
+            ds = [st.value for st in walk_local(cf.node) if isinstance(st, ast.Assign) and len(st.targets) == 1 and is_name(st.targets[0], e.id)]
+            if len(ds) == 1:
+                return resolved(ds[0], depth + 1)
+        return e
+    for k in keys:
+        k = resolved(k)
+        ctx.check(rule, 'the verdict cache is keyed by the class object itself', tparam is not None and is_name(k, tparam), cf.short, f'cache-key:{norm(k)}',
+                  f'the verdict cache is keyed by `{norm(k)}` instead of the class: once a class that was checked has been garbage-collected, a new class can be given the same key '
+                  '(the same address) and is answered with the stale verdict - an opt-in class is then silently serialised without the remote flag', where=loc(cf, k))
+
+
+def pickler_construction(ctx, f, depth=0, env=None):
+    """{'file': expr, 'protocol': expr, 'remote': expr} of the RemotePickler(...) call made by f, directly or through module-level helper functions
+    (arguments are substituted through the helpers' parameters, so the expressions are in terms of f's own parameters); None if there is none"""
+    env = env or {}
+
+    def subst(e):
+        return env.get(e.id, e) if isinstance(e, ast.Name) else e
+    for c in calls_in(f.node):
+        if last_attr(c) == 'RemotePickler':
+            out = {}
+            names = ['file', 'protocol']
+            for i, a in enumerate(c.args[:2]):
+                out[names[i]] = subst(a)
+            for k in c.keywords:
+                if k.arg in ('file', 'protocol', 'remote'):
+                    out[k.arg] = subst(k.value)
+            # an expression over a parameter is not the parameter: keep it, with the parameter names substituted, for the report
+            for key, e in list(out.items()):
+                if not isinstance(e, ast.Name) and isinstance(e, ast.AST):
+                    import copy
+                    e2 = copy.deepcopy(e)
+                    for n in ast.walk(e2):
+                        if isinstance(n, ast.Name) and n.id in env and isinstance(env[n.id], ast.Name):
+                            n.id = env[n.id].id
+                    out[key] = e2
+            return out
+    if depth >= 2:
+        return None
+    for c in calls_in(f.node):
+        r = ctx.prog.resolve_call(c, f, None)
+        if r and r[0] == 'func' and r[1].cls is None and r[1] is not f:
+            g = r[1]
+            ctx.used(g)
+            env2 = {}
+            for p, a in zip(g.params, c.args):
+                env2[p] = subst(a)
+            for k in c.keywords:
+                if k.arg:
+                    env2[k.arg] = subst(k.value)
+            res = pickler_construction(ctx, g, depth + 1, env2)
+            if res is not None:
+                return res
+    return None
+
+
 def run(ctx):
     P = ctx.prog
     RP = P.cls('RemotePickler36')
@@ -135,9 +206,15 @@ def run(ctx):
         f = rpm.functions[fn]
         ctx.used(f)
         d = f.param_default('remote')
-        fw = any(last_attr(c) == 'RemotePickler' and any(k.arg == 'remote' and is_name(k.value, 'remote') for k in c.keywords) for c in calls_in(f.node))
+        pc = pickler_construction(ctx, f)
+        fw = pc is not None and is_name(pc.get('remote'), 'remote')
         ctx.check('R3', f'{fn}: remote defaults to True and is forwarded to the pickler', isinstance(d, ast.Constant) and d.value is True and fw, f'remote_pickle.{fn}', f'{fn}-flag',
                   f'{fn} does not forward its remote flag to the pickler', where=loc(f, f.node))
+        # the protocol the caller asked for reaches the pickler unchanged (None included: the pickler's own default is pickle's default)
+        pr = pc.get('protocol') if pc else None
+        ctx.check('R3', f'{fn}: the protocol argument is handed to the pickler unchanged', is_name(pr, 'protocol'), f'remote_pickle.{fn}', f'{fn}-protocol:{norm(pr)}',
+                  f'{fn} constructs the pickler with protocol `{norm(pr)}` instead of the protocol it was given: for some legal value (0 is falsy) code that does not opt in gets a '
+                  'different pickle than from the standard pickler - other bytes, other reduce path (__new__ called on load), other errors', where=loc(f, f.node))
     for alias, target in (('dumps', 'remote_dumps'), ('dump', 'remote_dump'), ('loads', 'remote_loads'), ('load', 'remote_load')):
         ctx.check('R3', f'remote_pickle.{alias} is {target}', rpm.aliases.get(alias) == target, 'remote_pickle', f'alias:{alias}', f'remote_pickle.{alias} is not {target}', where=rpm.relpath)
     # metaclass: registration and Warning
@@ -174,6 +251,7 @@ def run(ctx):
               'the verdict cache is written before the inconsistency Warning can be raised: the first dump of an inconsistent class raises, every later one finds the cached entry '
               'and silently serialises the class without the remote flag', where=loc(cf, cf.node), path=path_str(pth or []))
     ctx.floor('verdict cache stores', len(cache_stores), 1)
+    check_cache_key(ctx, cf, 'R4')
     reg = [c for c in calls_in(cf.node) if last_attr(c) == 'append' and 'supported_classes' in (receiver(c) or '')]
     HR = final_ret[-1] if final_ret else 'has_remote'
     ok = bool(reg) and any(isinstance(x, ast.If) and norm(x.test) == HR for x in _anc(pm, reg[0]))
